@@ -164,12 +164,12 @@ type Node struct {
 }
 
 type Scenario struct {
-	Nodes     map[string]*Node `json:"nodes"`
-	CleanSort bool             `json:"clean_sort"`
-	CleanOpts bool             `json:"clean_opts"`
-	NoClean   bool             `json:"no_clean"`
-	CleanTwice bool            `json:"clean_twice"` // Clean is called twice in a row in TestMain
-	Roots     []string         `json:"roots"`
+	Nodes      map[string]*Node `json:"nodes"`
+	CleanSort  bool             `json:"clean_sort"`
+	CleanOpts  bool             `json:"clean_opts"`
+	NoClean    bool             `json:"no_clean"`
+	CleanTwice bool             `json:"clean_twice"` // Clean is called twice in a row in TestMain
+	Roots      []string         `json:"roots"`
 }
 
 // ---------------------------------------------------------------- running
@@ -189,18 +189,18 @@ type RunOpt struct {
 }
 
 type Event struct {
-	Ev      string  `json:"ev"`
-	Seq     int64   `json:"seq"`
-	Test    string  `json:"test,omitempty"`
-	Idx     int     `json:"idx,omitempty"`
-	Call    *Call   `json:"call,omitempty"`
-	SrcFile string  `json:"srcfile,omitempty"`
-	Of      int64   `json:"of,omitempty"`
-	Kind    string  `json:"kind,omitempty"`
-	Text    string  `json:"text,omitempty"`
-	Wrapper string  `json:"wrapper,omitempty"`
-	Cwd     string  `json:"cwd,omitempty"`
-	Code    int     `json:"code,omitempty"`
+	Ev      string `json:"ev"`
+	Seq     int64  `json:"seq"`
+	Test    string `json:"test,omitempty"`
+	Idx     int    `json:"idx,omitempty"`
+	Call    *Call  `json:"call,omitempty"`
+	SrcFile string `json:"srcfile,omitempty"`
+	Of      int64  `json:"of,omitempty"`
+	Kind    string `json:"kind,omitempty"`
+	Text    string `json:"text,omitempty"`
+	Wrapper string `json:"wrapper,omitempty"`
+	Cwd     string `json:"cwd,omitempty"`
+	Code    int    `json:"code,omitempty"`
 }
 
 type RunResult struct {
@@ -210,10 +210,10 @@ type RunResult struct {
 	Pre      map[string]vkit.Digest
 	Post     map[string]vkit.Digest
 	Final    map[string]vkit.Digest // taken by the parent after the child exited
-	CIEnv    []string // the CI-detection variables the child ran with
+	CIEnv    []string               // the CI-detection variables the child ran with
 	CleanOut string
 	Summary  *Summary
-	Summary2 *Summary // what the second Clean call printed (CleanTwice)
+	Summary2 *Summary                     // what the second Clean call printed (CleanTwice)
 	PreFiles map[string]map[string]string // root -> rel -> content right before Clean
 	Stderr   string
 	Err      error
@@ -355,12 +355,12 @@ func (p *Program) RunChild(o RunOpt) *RunResult {
 
 type Summary struct {
 	Passed, Failed, Added, Updated, Skipped int
-	Files     []string
-	Tests     []string
-	FilesVerb string // obsolete | removed
-	TestsVerb string
-	Present   bool
-	Unparsed  []string
+	Files                                   []string
+	Tests                                   []string
+	FilesVerb                               string // obsolete | removed
+	TestsVerb                               string
+	Present                                 bool
+	Unparsed                                []string
 }
 
 var evRE = regexp.MustCompile(`^\S+ (\d+) snapshots? (passed|failed|added|updated|skipped)$`)
